@@ -8,10 +8,11 @@ def run(tier):
     vd = common.Verdict(PID, tier)
     wd = common.scratch(PID)
     bdir = common.build("plain")
-    fams = [("altor", 3), ("subif", 3), ("fmt", 3)] if tier == "quick" else [("altor", 3), ("subif", 3), ("fmt", 3), ("closure", 3), ("names", 3)]
+    fams = [("altor", 3), ("subif", 3), ("fmt", 3), ("refeed", 3)] if tier == "quick" \
+        else [("altor", 3), ("subif", 3), ("fmt", 3), ("refeed", 4), ("closure", 3), ("names", 3)]
     total = 0
     # mechanism layer (tla/Engine.tla) refines the meaning layer, exhaustively
-    mc = [("altor", 3)] if tier == "quick" else [("altor", 3), ("subif", 3), ("fmt", 3)]
+    mc = [("altor", 3), ("refeed", 2)] if tier == "quick" else [("altor", 3), ("subif", 3), ("fmt", 3), ("refeed", 3)]
     for fam, w in mc:
         r = engine.model_check(vd, fam, w)
         if r.violated:
@@ -26,7 +27,10 @@ def run(tier):
         engine.replay(vd, vecs, bdir, wd, PID, check_illformed=False)
         vd.notes.setdefault("families", {})[fam] = dict(st, vectors=len(vecs), weight=w)
     return vd.finish(rule="programs enumerated by TLC (tla/Progs.tla) up to the stated weight per "
-                     "family, each run on a two-stack stream and on a single stack; expected "
+                     "family, each run on a two-stack stream, on a single stack and on two identical stacks (where the outermost "
+                     "construct takes its inputs one at a time the answer must be the same sequence twice: nothing is "
+                     "re-ordered because of a stack seen earlier); family 'refeed' has multi-yield chunks as leaves so that "
+                     "sub-chains are fed several stacks at once, several times; expected "
                      "results from the meaning layer tla/Zw.tla (Den); non-trivial = distinct "
                      "program texts with >=1 expected result or diagnostic containing a stateful "
                      "construct", exhaustive=True, extra={"families": vd.notes.get("families"), "model_checked": vd.notes.get("model_checked")})
